@@ -236,11 +236,11 @@ def _unary(a, f, kind=None, keepnan=True):
     return wrap(f(lift(a)))
 
 
-def abs(a):
+def abs_(a):
     return _unary(a, lambda v: z3.If(v >= 0, v, -v))
 
 
-absolute = abs
+absolute = abs_
 
 
 def sign(a):
@@ -334,7 +334,7 @@ def ceil(a):
     return _unary(a, f, 'f')
 
 
-def round(a, decimals=0):
+def round_(a, decimals=0):
     return a     # only used inside log messages
 
 
@@ -705,8 +705,6 @@ def any_(a, axis=None):
     return builtins.any(a)
 
 
-all = all_
-any = any_
 
 
 def alltrue(a):
@@ -734,10 +732,19 @@ def sum_axioms():
             z3.ForAll([b, k], z3.Implies(k >= 0, SUMI(b, k + 1) == SUMI(b, k) + b[k]), patterns=[SUMI(b, k + 1)])]
 
 
+_reify_depth = 0
+
+
 def reify1(f, kind):
     """z3 array (Lambda) of the 1-d closure f"""
-    t = z3.Int('t%d' % next(_buf_ids))
-    e = f(t)
+    # deterministic bound-variable names (by nesting depth): alpha-equivalent vectors become identical terms
+    global _reify_depth
+    t = z3.Int('t_lam%d' % _reify_depth)
+    _reify_depth += 1
+    try:
+        e = f(t)
+    finally:
+        _reify_depth -= 1
     if kind == 'b':
         e = z3.If(e, z3.IntVal(1), z3.IntVal(0))
     return z3.Lambda([t], e)
@@ -759,7 +766,7 @@ def _sum1(f, n, kind):
     return (SUMR if kind == 'f' else SUMI)(arr, n)
 
 
-def sum(a, axis=None):
+def sum_(a, axis=None):
     if isinstance(a, (list, tuple)):
         a = array(a)
     if not isinstance(a, SArr):
@@ -794,8 +801,8 @@ def nansum(a, axis=None):
         if g is not None and g[0].nan is not None:
             b0 = g[0]
             b.gather_of = (SArr(b0.shape_e, lambda *ix: z3.If(b0.nan(*ix), z, b0.elem(*ix)), b0.kind), g[1])
-        return sum(b, axis)
-    return sum(a, axis)
+        return sum_(b, axis)
+    return sum_(a, axis)
 
 
 def mean(a, axis=None):
@@ -803,7 +810,7 @@ def mean(a, axis=None):
         a = array(a)
     if axis is not None and axis < 0:
         axis += a.ndim
-    s = sum(a, axis)
+    s = sum_(a, axis)
     if axis is None:
         tot = lift(a.size)
     else:
@@ -866,6 +873,16 @@ def _pat_ok(e, ix):
 import builtins as _bi
 builtins_all = _bi.all
 
+_EXPORTS = {}
+
+
+def __getattr__(name):
+    # names that would shadow python builtins inside this module are exported lazily (PEP 562)
+    try:
+        return _EXPORTS[name]
+    except KeyError:
+        raise AttributeError('numpy shim has no attribute %r (unsupported numpy function)' % name)
+
 
 def amax(a, axis=None):
     return _extreme(_arr(a), axis, True)
@@ -875,8 +892,6 @@ def amin(a, axis=None):
     return _extreme(_arr(a), axis, False)
 
 
-max = amax
-min = amin
 
 
 def cumsum(a, axis=0):
@@ -954,3 +969,6 @@ def argmin(a, axis=None):
 
 def isscalar(x):
     return not isinstance(x, SArr)
+
+
+_EXPORTS.update({'abs': abs_, 'sum': sum_, 'round': round_, 'all': all_, 'any': any_, 'max': amax, 'min': amin})
